@@ -61,7 +61,7 @@ func ruleT1(c *Ctx) *RuleResult {
 		}
 	}
 	for _, fn := range enc {
-		if fn.Name() != "marshal" && fn.Name() != "Marshal" {
+		if fn.Name() != "marshal" && fn.Name() != "Marshal" && !c.isMarshalFunc(enclosingNamed(fn)) {
 			continue // e.g. MediaKey.Equal reads every key field without printing it
 		}
 		for _, a := range accessesIn(fn) {
@@ -252,7 +252,7 @@ func (c *Ctx) encoderTagFields(fn *ssa.Function) map[string]map[*types.Var]bool 
 			if strings.HasPrefix(l.kind, "call:") {
 				call := l.val.(*ssa.Call)
 				g := call.Call.StaticCallee()
-				if g != nil && (g.Name() == "marshal") && len(call.Call.Args) > 0 {
+				if g != nil && (g.Name() == "marshal" || (c.isMarshalFunc(g) && g.Name() != "Marshal" && len(g.Params) == 1)) && len(call.Call.Args) > 0 {
 					// receiver loaded from a field → that field carries the callee's tag
 					t := firstTagOf(g)
 					for _, f := range fieldsFeeding(call.Call.Args[0], 0) {
@@ -380,12 +380,28 @@ func ruleT2(c *Ctx) *RuleResult {
 			r.undecided("%s codec not found", p.typ)
 			continue
 		}
-		dm := c.decoderTagFields(d)
-		em := c.encoderTagFields(e)
+		merge := func(dst, src map[string]map[*types.Var]bool) {
+			for k, fs := range src {
+				if dst[k] == nil {
+					dst[k] = map[*types.Var]bool{}
+				}
+				for f := range fs {
+					dst[k][f] = true
+				}
+			}
+		}
+		dm := map[string]map[*types.Var]bool{}
+		for _, h := range c.withLocalHelpers(d) {
+			merge(dm, c.decoderTagFields(h))
+		}
+		em := map[string]map[*types.Var]bool{}
+		for _, h := range c.withLocalHelpers(e) {
+			merge(em, c.encoderTagFields(h))
+		}
 		// the segment-level tags are printed by MediaSegment.marshal / variants by their own marshal
 		extra := map[string]string{"Media": "MediaSegment", "Multivariant": ""}
 		if x := extra[p.typ]; x != "" {
-			if sm := c.Method("pkg/playlist", x, "marshal"); sm != nil {
+			if sm := c.codecFuncOf(x, "marshal"); sm != nil {
 				for t, fs := range c.encoderTagFields(sm) {
 					if em[t] == nil {
 						em[t] = map[*types.Var]bool{}
@@ -506,13 +522,23 @@ func ruleT3(c *Ctx) *RuleResult {
 		if _, ok := tn.Type().Underlying().(*types.Struct); !ok {
 			continue
 		}
-		u := c.Method("pkg/playlist", tn.Name(), "unmarshal")
-		m := c.Method("pkg/playlist", tn.Name(), "marshal")
+		u := c.codecFuncOf(tn.Name(), "unmarshal")
+		m := c.codecFuncOf(tn.Name(), "marshal")
 		if u == nil || m == nil {
 			continue
 		}
 		n++
-		dm := c.decoderAttrFields(u)
+		dm := map[string]map[*types.Var]bool{}
+		for _, h := range c.withLocalHelpers(u) {
+			for k, fs := range c.decoderAttrFields(h) {
+				if dm[k] == nil {
+					dm[k] = map[*types.Var]bool{}
+				}
+				for f := range fs {
+					dm[k][f] = true
+				}
+			}
+		}
 		em := map[string]map[*types.Var]bool{}
 		for _, ea := range attrs {
 			if ea.fn != m {
